@@ -16,7 +16,9 @@ INTS = Palette("int/plain", "int", [-3, 0, 7, 2**53], has_na=False, full_dtype=i
 TEXTNUM = Palette("str/digits", "str", ["x0", "x1", "x2", "x3"], na="", full_dtype=str)
 # strings a fixed-width NumPy array cannot hold (trailing NUL) - the binary formats have to keep them
 NULSTR = Palette("str/nul", "str", ["a\x00", "\x00", "ab", "b\x00c"], na="", full_dtype=str)
-for p in (HOSTILE_U8, HOSTILE_L1, FLOATS, INTS, TEXTNUM, NULSTR):
+# JSON values that are themselves objects / arrays (a key restriction applies to the items' own keys only)
+NESTED = Palette("obj/nested", "obj", [{"lat": 1, "lon": 2}, {"a": 3, "lon": {"x": 1}}, [1, {"a": 2, "z": 0}], {"z": None}], na=None, full_dtype=object)
+for p in (HOSTILE_U8, HOSTILE_L1, FLOATS, INTS, TEXTNUM, NULSTR, NESTED):
     gamma.BY_NAME[p.name] = p
 
 # abstract contents (columns a, b, c): content 2 has its string column starting with a missing value
@@ -49,6 +51,7 @@ def palettes(owner, fmt, enc, k):
     a = INTS if k != 2 else gamma.BOOL
     if owner == "lod" and fmt == "json":
         a = INTS
+        return {"a": a, "b": host, "c": c, "d": TEXTNUM, "e": NESTED}
     b, d = host, TEXTNUM
     if k == 5 and fmt in ("pickle", "npz", "parquet"):
         b = NULSTR
